@@ -48,6 +48,8 @@ class Tok:
     def __pyvc_attr__(self, eng, name):
         if name == 'encode':
             return _K(Tok(f'utf8({self.name})'))
+        if name == 'decode':
+            return _K(self)
         raise Unsupported(f'{self.name}.{name}')
 
     def __pyvc_cmp__(self, eng, op, other, refl):
